@@ -316,15 +316,87 @@ pub fn check(tier: Tier) -> i32 {
     }
     let p2 = pals.clone();
     let res = hist::explore(inits, CFG, depth, Arc::new(enabled), Arc::new(move |h, ctx| run(&p2, h, ctx)));
+    // (a) a rejected write after EVERY number of accepted records up to the bound:
+    //     no byte may reach a destination during it, whatever the record counter says
+    // (b) a user-defined shape of another type with an absurd announced size
+    let mut extra = Ctx::new();
+    {
+        use crate::bridge::*;
+        let maxn = tier.pick(1100usize, 3100);
+        for (file_ty, offered) in [(Ty::Point, Ty::Polyline), (Ty::PolylineZ, Ty::PointM)] {
+            let fi = ALL13.iter().position(|t| *t == file_ty).unwrap();
+            let oi = ALL13.iter().position(|t| *t == offered).unwrap();
+            let pal = &pals[fi * 13 + oi];
+            let expect = format!("MismatchShapeType(requested={},actual={})", file_ty.code(), offered.code());
+            for with_shx in [true, false] {
+                let env = WEnv::new(with_shx);
+                let mut w = match &env.shx {
+                    Some(x) => shapefile::ShapeWriter::with_shx(env.shp.clone(), x.clone()),
+                    None => shapefile::ShapeWriter::new(env.shp.clone()),
+                };
+                for n in 1..=maxn {
+                    env.set_call(0);
+                    let _ = write_shape(&mut w, &pal.lib[n % 2]);
+                    env.set_call(1);
+                    let before = (env.shp.log_len(), env.shx.as_ref().map(|x| x.log_len()).unwrap_or(0));
+                    let r = write_shape(&mut w, pal.other.as_ref().unwrap());
+                    let cj = json!({"file_type": file_ty.name(), "offered_type": offered.name(), "with_shx": with_shx, "accepted_before_the_rejected_write": n});
+                    let mut hh = Fnv::new();
+                    hh.str(&cj.to_string());
+                    extra.case_done(hh.finish(), true, 5);
+                    extra.lib_calls += 2;
+                    let got = r.map_err(|e| err_kind(&e));
+                    if got != Err(expect.clone()) {
+                        extra.violation("count-sweep:rejected-write-result", || cj.clone(), || format!("{:?}", got));
+                    }
+                    let wrote = |d: &crate::dev::Dev, from: usize| d.log()[from..].iter().any(|o| matches!(o, Op::Write { .. }));
+                    if wrote(&env.shp, before.0) || env.shx.as_ref().map(|x| wrote(x, before.1)).unwrap_or(false) {
+                        extra.violation("count-sweep:rejected-write-wrote-bytes", || cj.clone(), || format!("the rejected write after {} accepted records wrote to a destination", n));
+                    }
+                    // keep the logs small
+                    env.shp.0.borrow_mut().log.clear();
+                    if let Some(x) = &env.shx {
+                        x.0.borrow_mut().log.clear();
+                    }
+                }
+            }
+        }
+        // (b)
+        for size in [0usize, 3, 1 << 20, (1usize << 31) - 4, 1usize << 31, 1usize << 33, usize::MAX / 2] {
+            for with_shx in [true, false] {
+                let env = WEnv::new(with_shx);
+                let mut w = match &env.shx {
+                    Some(x) => shapefile::ShapeWriter::with_shx(env.shp.clone(), x.clone()),
+                    None => shapefile::ShapeWriter::new(env.shp.clone()),
+                };
+                let pal = &pals[0 * 13 + 1];
+                let _ = write_shape(&mut w, &pal.lib[0]);
+                let before = env.shp.log_len();
+                let r = catch(|| w.write_shape(&Absurd { size }).map_err(|e| err_kind(&e)));
+                let cj = json!({"file_type": "Point", "offered": "user-defined Polygon-typed shape", "announced_size": size, "with_shx": with_shx});
+                let mut hh = Fnv::new();
+                hh.str(&cj.to_string());
+                extra.case_done(hh.finish(), true, 6);
+                let want = Err(format!("MismatchShapeType(requested={},actual={})", Ty::Point.code(), Ty::Polygon.code()));
+                match r {
+                    Ok(got) if got == want && env.shp.log_len() == before => {}
+                    Ok(got) => extra.violation("user-shape:rejected-write", || cj.clone(), || format!("returned {:?}, {} operations on the .shp", got, env.shp.log_len() - before)),
+                    Err(p) => extra.violation(format!("user-shape:{}", p.sig()), || cj.clone(), || p.msg.clone()),
+                }
+            }
+        }
+    }
     let st = selftest(&pals);
-    let agg = merge(res.ctxs);
+    let mut ctxs = res.ctxs;
+    ctxs.push(extra);
+    let agg = merge(ctxs);
     finish(
         RunInfo {
             prop: "C10",
             tier,
             level: "model_checking",
             engine: "E1 stateright BFS over operation histories on the real ShapeWriter / Writer over instrumented devices",
-            rule: "all 13x12 ordered (file type, offered type) pairs x {ShapeWriter+shx, ShapeWriter, complete Writer} x every history over {Wa, Wb, F, R=write of the offered type} (first op a W, <=2 R, no F on the complete Writer) up to the depth bound; non-trivial = contains an R",
+            rule: "all 13x12 ordered (file type, offered type) pairs x {ShapeWriter+shx, ShapeWriter, complete Writer} x every history over {Wa, Wb, F, R=write of the offered type} (first op a W, <=2 R, no F on the complete Writer) up to the depth bound; plus a rejected write after EVERY number 1..=bound of accepted records (per-call operation log), and user-defined shapes of another type announcing sizes up to usize::MAX/2; non-trivial = contains an R",
             bounds: json!({"depth": depth, "type_pairs": 156, "routes": 3, "max_rejected_calls": 2}),
             exhaustive: true,
             assumptions: vec!["'changes nothing else' is judged by byte equality with the same history minus the rejected calls, run on the same tree; the .dbf date stamp (the only clock) is masked".into()],
@@ -348,6 +420,32 @@ pub fn replay(v: &Value) -> Vec<(String, String)> {
     match catch(|| observe(&pal, &case)) {
         Ok(o) => judge(&case, &o),
         Err(p) => vec![(format!("harness-or-drop-panic:{}", p.sig()), p.msg)],
+    }
+}
+
+/// A user-defined shape (the traits are public) that claims to be a polygon of an absurd size.
+struct Absurd {
+    size: usize,
+}
+impl shapefile::record::HasShapeType for Absurd {
+    fn shapetype() -> shapefile::ShapeType {
+        shapefile::ShapeType::Polygon
+    }
+}
+impl shapefile::record::WritableShape for Absurd {
+    fn size_in_bytes(&self) -> usize {
+        self.size
+    }
+    fn write_to<T: std::io::Write>(&self, _dest: &mut T) -> Result<(), shapefile::Error> {
+        Ok(())
+    }
+}
+impl shapefile::record::EsriShape for Absurd {
+    fn x_range(&self) -> [f64; 2] {
+        [0.0, 0.0]
+    }
+    fn y_range(&self) -> [f64; 2] {
+        [0.0, 0.0]
     }
 }
 
